@@ -4,7 +4,7 @@ import sys, re
 blocks = re.split(r"\n(?=error|warning|note: |verification results)", sys.stdin.read())
 can = 0
 for b in blocks:
-    if "assert(false); } /*@E*/" in b:
+    if b.startswith("error: assertion failed") and "assert(false); } /*@E*/" in b:
         can += 1
         continue
     if b.startswith("warning"):
